@@ -107,7 +107,7 @@ func init() {
 	ext("strconv.FormatUint", func(fr *frame, args []value) value {
 		return strconv.FormatUint(uint64(concInt(fr, args[0], "FormatUint")), int(asInt64(args[1])))
 	})
-	ext("strconv.Quote", func(fr *frame, args []value) value { return opaque{"strconv.Quote"} })
+	ext("strconv.Quote", func(fr *frame, args []value) value { return opaque{tag: "strconv.Quote"} })
 }
 
 // resetTargetGlobals re-zeroes the globals of the packages under test so that
